@@ -13,8 +13,9 @@ the struct's fields even when the struct declares a method, it is what the metho
 Part 1, conservativity: on an environment without methods the M models and M specifications ARE the
 plain ones, so every theorem of Props/C02.lean is a theorem about what the driver runs.
 Part 2, the method clause: `EqualM.top = structEqTopM`, `EqualM.field = structEqM` on environments whose
-declarations may have Equal methods (`SupportedM` / `SupportedCompM`, Lemmas/Methods.lean), with the two
-places where the emitted code does NOT follow the component semantics shown as counterexamples.
+declarations may have Equal methods (`SupportedM` / `SupportedCompM`, Lemmas/Methods.lean), with the one
+place where the emitted code does NOT follow the component semantics shown as a counterexample. Map keys
+are matched with `==` by the emitted code and by the specification alike (`Spec.valueAtM`).
 
 Only theorems and non-vacuity examples live here. Proofs, `Env.flagsAgree`, `Env.flagsOkM`,
 `Env.directWF`, `SupportedM`, `SupportedCompM` and the concrete world `MW` (`UE` with a pointer-receiver
@@ -145,14 +146,13 @@ example : EqualM.field envN tNode x1 z1 = .ok false := by
 
 /-! ### 2. The method clause: environments WITH Equal methods -/
 
-open MW in
 /-- **C02, method clause, the function generated for `T`.** On an environment whose declarations may
 declare Equal methods, the function generated for a supported type returns — without panicking —
 the verdict `structEqTopM`: structural, except that at every named component that declares an Equal
 method the verdict is that method's. Hypotheses: both flag caches are consistent, the values are
 typed, `SupportedM` (= `Supported` with `canEqualM` for `canEqual`; every method-bearing declaration
-is a struct with a first field, which is what the corpus' methods read; map keys are `canEqualM`;
-no pointer to a named pointer type in component position — see the two counterexamples below). -/
+is a struct with a first field, which is what the corpus' methods read; no pointer to a named
+pointer type in component position — see the counterexample below; map key types need no condition). -/
 theorem equalM_top_correct (env : Env) (T : Ty) (x y : Val)
     (hf : env.flagsOk = true) (hfM : env.flagsOkM = true)
     (hx : hasType env T x = true) (hy : hasType env T y = true)
@@ -261,26 +261,38 @@ example : EqualM.field MW.env MW.tHolder MW.hx MW.hy = EqualM.top MW.env MW.tHol
   equalM_field_eq_top MW.env MW.tHolder MW.hx MW.hy MW.env_flagsOk MW.env_flagsOkM MW.hx_typed
     MW.hy_typed MW.env_supportedComp (by intro R h; cases h)
 
-/-! ### 3. Where the emitted code does not follow the component semantics
+/-! ### 3. Map keys, and where the emitted code does not follow the component semantics -/
 
-Both exclusions of `SupportedCompM` are necessary: these are typed inputs on which `EqualM.field`
-(the emitted code) and `structEqM` ("the answer at a component with a method is the method's")
-disagree. -/
-
-/-- **Map keys are looked up with `==`, never with the key type's Equal method.**
-`map[UV]int64{{1,"a"}: 0}` vs `map[UV]int64{{1,"b"}: 0}`: `UV.Equal` says the two keys are equal (it looks
-at `A` only), so the component semantics says the maps are equal; the emitted `that[k]` finds nothing. -/
+/-- **Map keys are looked up with `==`, never with the key type's Equal method** — by the emitted code
+(`that[k]`) and by the specification (`Spec.valueAtM` matches keys with the method-free `structEq`: the
+key set of a Go map is determined by `==`). `map[UV]int64{{1,"a"}: 0}` vs `map[UV]int64{{1,"b"}: 0}`:
+`UV.Equal` would call the two keys equal (it looks at `A` only), yet the maps are different; a map type
+with a method-bearing key type is supported and covered by `equalM_field_correct`. -/
 example :
     let T : Ty := .map MW.tUV MW.i64
     let x : Val := .map 1 (.scons (.pair (MW.uv 1 [97]) (.int 0)) .snil)
     let y : Val := .map 2 (.scons (.pair (MW.uv 1 [98]) (.int 0)) .snil)
-    hasType MW.env T x = true ∧ hasType MW.env T y = true ∧ SupportedCompM MW.env T = false ∧
-      EqualM.field MW.env T x y = .ok false ∧ Spec.structEqM MW.env T x y = true := by
-  refine ⟨?_, ?_, by decide, ?_, ?_⟩
-  · goderive_eval [MW.env, MW.tUV, MW.uv, MW.i64]
-  · goderive_eval [MW.env, MW.tUV, MW.uv, MW.i64]
-  · equalM_eval [MW.env, MW.tUV, MW.uv, MW.i64]
-  · goderive_evalM [MW.env, MW.tUV, MW.uv, MW.i64]
+    hasType MW.env T x = true ∧ hasType MW.env T y = true ∧ SupportedCompM MW.env T = true ∧
+      EqualM.field MW.env T x y = .ok false ∧ Spec.structEqM MW.env T x y = false ∧
+      EqualM.field MW.env T x x = .ok true := by
+  have tx : hasType MW.env (.map MW.tUV MW.i64)
+      (.map 1 (.scons (.pair (MW.uv 1 [97]) (.int 0)) .snil)) = true := by
+    goderive_eval [MW.env, MW.tUV, MW.uv, MW.i64]
+  have ty : hasType MW.env (.map MW.tUV MW.i64)
+      (.map 2 (.scons (.pair (MW.uv 1 [98]) (.int 0)) .snil)) = true := by
+    goderive_eval [MW.env, MW.tUV, MW.uv, MW.i64]
+  have hxy : Spec.structEqM MW.env (.map MW.tUV MW.i64)
+      (.map 1 (.scons (.pair (MW.uv 1 [97]) (.int 0)) .snil))
+      (.map 2 (.scons (.pair (MW.uv 1 [98]) (.int 0)) .snil)) = false := by
+    goderive_evalM [MW.env, MW.tUV, MW.uv, MW.i64]
+  refine ⟨tx, ty, by decide, ?_, hxy, ?_⟩
+  · rw [equalM_field_correct MW.env _ _ _ MW.env_flagsOk MW.env_flagsOkM tx ty (by decide), hxy]
+  · rw [equalM_field_correct MW.env _ _ _ MW.env_flagsOk MW.env_flagsOkM tx tx (by decide)]
+    goderive_evalM [MW.env, MW.tUV, MW.uv, MW.i64]
+
+/-! The exclusion of `SupportedCompM` that remains is necessary: a typed input on which `EqualM.field`
+(the emitted code) and `structEqM` ("the answer at a component with a method is the method's")
+disagree. -/
 
 /-- **A pointer to a NAMED POINTER type** (`*PT`, `type PT *UE`) in component position: the emitted
 code calls the function generated for `*PT`, which walks down to `UE` and compares its fields, although
